@@ -7,7 +7,7 @@ import subprocess
 import tempfile
 from pathlib import Path
 
-from harness.common import PY, REPO, VERIF, rng, short
+from harness.common import quick_scale, PY, REPO, VERIF, rng, short
 from harness.gen import corpus, mutate, pyprog, xonshgen
 
 CHILD = r'''
@@ -75,7 +75,7 @@ ENVS = [
 
 def build_inputs(tier):
     r = rng("C12")
-    N = 1 if tier == "quick" else 10
+    N = quick_scale() if tier == "quick" else 10
     files = []
     base = list(corpus.PY_STMTS[:40]) + list(xonshgen.XONSH_STMTS)
     for i in range(25 * N):
